@@ -29,6 +29,9 @@ type c16Step struct {
 	A string `json:"a"`
 	D string `json:"d"`
 	R string `json:"r"`
+	// C: the refresh is called with a context that is already cancelled (a
+	// shutdown, a debug request whose client has gone)
+	C bool `json:"c"`
 }
 
 type c16Rec struct {
@@ -110,6 +113,7 @@ func c16Run(t *testing.T, out *vhOut, beh int, steps []c16Step, devs []string) {
 	})
 	ctx := context.Background()
 	inflight := map[string]*c16Upload{}
+	aborted := map[string]bool{}
 	done := map[string]chan error{}
 	delivered := map[string]int{}
 	delivMeta := map[string]int{}
@@ -128,16 +132,33 @@ func c16Run(t *testing.T, out *vhOut, beh int, steps []c16Step, devs []string) {
 		case "RefreshReset":
 			ch := make(chan error, 1)
 			done[s.R] = ch
-			go func() { ch <- r.Refresh(ctx) }()
+			rctx := ctx
+			if s.C {
+				var cancel context.CancelFunc
+				rctx, cancel = context.WithCancel(ctx)
+				cancel()
+			}
+			go func() { ch <- r.Refresh(rctx) }()
 			select {
 			case u := <-up.entered:
 				inflight[s.R] = u
 				ev.Taken = c16Fill(u.atEntry, devs)
+			case rerr := <-ch:
+				// the refresh returned without having handed anything to the uploader
+				if rerr == nil {
+					t.Fatalf("refresh %s returned nil without an upload", s.R)
+				}
+				ev.Ev = "RefreshAborted"
+				aborted[s.R] = true
 			case <-time.After(10 * time.Second):
 				t.Fatalf("refresh %s did not reach Upload", s.R)
 			}
 		case "UploadOK", "UploadFail":
 			u := inflight[s.R]
+			if u == nil && aborted[s.R] {
+				delete(aborted, s.R)
+				continue
+			}
 			if u == nil {
 				t.Fatalf("behaviour %d: %s of idle refresh %s", beh, s.A, s.R)
 			}
@@ -196,7 +217,7 @@ func c16Random(rng *rand.Rand, devs, refs []string, n int) (steps []c16Step) {
 			r := refs[rng.Intn(len(refs))]
 			if !busy[r] {
 				busy[r] = true
-				steps = append(steps, c16Step{A: "RefreshReset", R: r})
+				steps = append(steps, c16Step{A: "RefreshReset", R: r, C: rng.Intn(4) == 0})
 			} else {
 				busy[r] = false
 				a := "UploadOK"
